@@ -16,11 +16,11 @@ import (
 
 func init() {
 	vc.Register(&vc.Check{ID: "C11", Level: "fault_enumeration", Run: run, Replay: replay, QuickSec: 170, ThoroSec: 2400,
-		Rule: "for each chip configuration the fault-free read is run and its N exchanges numbered; then for EVERY exchange index k in [0,N) and EVERY fault kind of the 14-entry menu (empty, first byte only, last byte dropped, first half, data bit flipped, SW bit flipped, 1 byte appended, 300 bytes appended, SW:=6A82/6982/6700/6300, bare 9000, previous response replayed) one complete execution of the real Reader.ReadDocument against the independent chip (D=1: N x 14 per configuration); thorough adds D=2 (all ordered pairs of faults) on the smallest configuration, which replaces 'random multi-fault sequences' by an exhaustive bound. Horizon: more than 20 N exchanges = livelock. Oracle from the chip's own truth: no panic escapes; every file returned is byte-identical to the chip's; no protocol reported successful that the chip did not complete; DataTrusted only if issuer trusted and all returned files genuine. distinct_nontrivial = distinct (configuration, k, fault kind, outcome signature)",
+		Rule: "for each chip configuration the fault-free read is run and its N exchanges numbered; then for EVERY exchange index k in [0,N) and EVERY fault kind of the 16-entry menu (bare 6A82, bare 6283, empty, first byte only, last byte dropped, first half, data bit flipped, SW bit flipped, 1 byte appended, 300 bytes appended, SW:=6A82/6982/6700/6300, bare 9000, previous response replayed) one complete execution of the real Reader.ReadDocument against the independent chip (D=1: N x 16 per configuration); thorough adds D=2 (all ordered pairs of faults) on the smallest configuration, which replaces 'random multi-fault sequences' by an exhaustive bound. Horizon: more than 20 N exchanges = livelock. Oracle from the chip's own truth: no panic escapes; every file returned is byte-identical to the chip's; no protocol reported successful that the chip did not complete; DataTrusted only if issuer trusted and all returned files genuine; a faulted read (fault on a protected exchange) that reports neither an error nor a failed step must be indistinguishable from the fault-free read (no silent degradation). distinct_nontrivial = distinct (configuration, k, fault kind, outcome signature)",
 		Assume: []string{"content corruption of the plaintext EF.CardAccess read (before any session exists) is undetectable by any implementation; byte-identity of CardAccess is therefore not asserted for faults on unprotected exchanges", "faults are applied to the response bytes on the wire; the chip itself behaves conformingly"}})
 }
 
-var faultKinds = []string{"empty", "first-byte-only", "last-byte-dropped", "first-half", "data-bit-flipped", "sw-bit-flipped", "one-byte-appended", "300-bytes-appended",
+var faultKinds = []string{"bare-6A82", "bare-6283", "empty", "first-byte-only", "last-byte-dropped", "first-half", "data-bit-flipped", "sw-bit-flipped", "one-byte-appended", "300-bytes-appended",
 	"sw:=6A82", "sw:=6982", "sw:=6700", "sw:=6300", "bare-9000", "previous-response"}
 
 func applyFault(kind string, genuine, prev []byte) []byte {
@@ -65,6 +65,10 @@ func applyFault(kind string, genuine, prev []byte) []byte {
 		return setSW(0x63, 0x00)
 	case "bare-9000":
 		return []byte{0x90, 0x00}
+	case "bare-6A82":
+		return []byte{0x6A, 0x82}
+	case "bare-6283":
+		return []byte{0x62, 0x83}
 	case "previous-response":
 		if prev == nil {
 			return []byte{0x6F, 0x00}
@@ -134,6 +138,9 @@ type result struct {
 	Key, What string
 	Sig       string
 	Exchanges int
+	Complete  string // files present + verdicts; compared with the fault-free run when a faulted read reports no failure
+	Failed    bool   // the read returned an error or recorded a failed step
+	UnprotectedFault bool
 }
 
 func runCase(cc chipCfg, faults []fault, n int) result {
@@ -174,6 +181,7 @@ func runCase(cc chipCfg, faults []fault, n int) result {
 	sig := fmt.Sprintf("err=%v", r.Err != nil)
 	if r.Doc == nil {
 		res.Sig = sig + "/nodoc"
+		res.Failed = true
 		return res
 	}
 	for _, d := range append(append([]int{}, p.DGList...), 0x1D, 0x1E, 0x1C, 0x11D) {
@@ -247,7 +255,28 @@ func runCase(cc chipCfg, faults []fault, n int) result {
 		return res
 	}
 	res.Sig = fmt.Sprintf("%s/bac=%v/pace=%v/cam=%v/ca=%v/aa=%v/trusted=%v", sig, bac, pace, cam, ca, aa, sum.DataTrusted)
+	var present []int
+	for _, d := range append(append([]int{}, p.DGList...), 0x1D, 0x1E, 0x1C, 0x11D) {
+		if e2e.FileBytes(&r.Doc.Document, d) != nil {
+			present = append(present, d)
+		}
+	}
+	pa := s.PassiveAuthResult != nil && s.PassiveAuthResult.Success
+	res.Complete = fmt.Sprintf("files=%v/bac=%v/pace=%v/cam=%v/ca=%v/aa=%v/pa=%v/trusted=%v/auth=%s", present, bac, pace, cam, ca, aa, pa, sum.DataTrusted, ch)
+	res.Failed = r.Err != nil || s.BacErr != nil || s.PaceErr != nil || s.ChipAuthErr != nil || s.ActiveAuthErr != nil || s.PassiveAuthErr != nil || s.DocumentVerifyErr != nil
+	res.UnprotectedFault = unprotectedFault
 	return res
+}
+
+// judgeCase = runCase + the no-silent-degradation rule against the fault-free result of the same configuration.
+func judgeCase(cc chipCfg, faults []fault, n int, baseComplete string) result {
+	r := runCase(cc, faults, n)
+	if r.Key == "" && !r.Failed && !r.UnprotectedFault && r.Complete != baseComplete {
+		// the statement: a misbehaving exchange ends the read with an error or with that step recorded as failed.
+		// Tolerated faults are fine only if the result is indistinguishable from the fault-free read.
+		r.Key, r.What = "silent-degradation", fmt.Sprintf("no error and no failed step, but the result differs from the fault-free read: %s (fault-free: %s)", r.Complete, baseComplete)
+	}
+	return r
 }
 
 func run(c *vc.Ctx) {
@@ -284,10 +313,10 @@ func run(c *vc.Ctx) {
 					goto d2
 				}
 				fs := []fault{{k, kind}}
-				r := runCase(cc, fs, n)
+				r := judgeCase(cc, fs, n, base.Complete)
 				if r.Key != "" {
 					rec := caseRec{cc.Name, fs, n}
-					c.Violation(sec1, r.Key, fmt.Sprintf("%s, fault %s at exchange %d of %d: %s", cc.Name, kind, k, n, r.What), rec, func() bool { return runCase(cc, fs, n).Key != "" })
+					c.Violation(sec1, r.Key, fmt.Sprintf("%s, fault %s at exchange %d of %d: %s", cc.Name, kind, k, n, r.What), rec, func() bool { return judgeCase(cc, fs, n, base.Complete).Key != "" })
 					c.Outcome(sec1, "VIOLATION")
 				} else {
 					c.Outcome(sec1, r.Sig)
@@ -297,12 +326,13 @@ func run(c *vc.Ctx) {
 		}
 	}
 d2:
-	c.SecBound(sec1, fmt.Sprintf("%d configurations, exchanges per fault-free read %v, 14 fault kinds", len(cfgs), ns))
+	c.SecBound(sec1, fmt.Sprintf("%d configurations, exchanges per fault-free read %v, 16 fault kinds", len(cfgs), ns))
 	c.Extra("fault_free_exchanges", ns)
 	// D = 2 on the smallest configuration
 	sec2 := "D=2: all ordered pairs of faults on the smallest configuration"
 	small := cfgs[0]
 	n := ns[small.Name]
+	baseSmall := runCase(small, nil, 400)
 	kinds2 := faultKinds
 	if c.Quick() {
 		// quick: pairs restricted to 4 fault kinds that continue the session (bare status / SW changes)
@@ -322,10 +352,10 @@ d2:
 				for _, a := range kinds2 {
 					for _, b := range kinds2 {
 						fs := []fault{{k1, a}, {k2, b}}
-						r := runCase(small, fs, n)
+						r := judgeCase(small, fs, n, baseSmall.Complete)
 						if r.Key != "" {
 							rec := caseRec{small.Name, fs, n}
-							c.Violation(sec2, r.Key, fmt.Sprintf("%s, faults %v: %s", small.Name, fs, r.What), rec, func() bool { return runCase(small, fs, n).Key != "" })
+							c.Violation(sec2, r.Key, fmt.Sprintf("%s, faults %v: %s", small.Name, fs, r.What), rec, func() bool { return judgeCase(small, fs, n, baseSmall.Complete).Key != "" })
 							c.Outcome(sec2, "VIOLATION")
 						} else {
 							c.Outcome(sec2, r.Sig)
@@ -352,7 +382,7 @@ func replay(c *vc.Ctx, raw json.RawMessage) string {
 	refpki.EnsureKeys()
 	for _, cc := range configs(true) {
 		if cc.Name == doc.Case.Config {
-			r := runCase(cc, doc.Case.Faults, doc.Case.N)
+			r := judgeCase(cc, doc.Case.Faults, doc.Case.N, runCase(cc, nil, 400).Complete)
 			if r.Key != "" {
 				c.Violation(doc.Section, r.Key, r.What, doc.Case, nil)
 			}
